@@ -19,6 +19,7 @@ import (
 // nativeReplayer builds the harness files of one property together with verif_native.go into a test binary of the
 // REAL package (go test -c -overlay, nothing is written into /repo) and runs solver models through it.
 type nativeReplayer struct {
+	memLimitKB int // run replays under ulimit -v (allocation bombs then die with the runtime's out-of-memory error)
 	dir    string
 	bin    string
 	nruns  int
@@ -122,6 +123,9 @@ func (r *nativeReplayer) run(entry string, bounds map[string]int64, inputs []Non
 	ctx, cancel := context.WithTimeout(context.Background(), timeout)
 	defer cancel()
 	cmd := exec.CommandContext(ctx, r.bin, "-test.run", "^TestVerifReplay$", "-test.timeout", "0")
+	if r.memLimitKB > 0 {
+		cmd = exec.CommandContext(ctx, "sh", "-c", fmt.Sprintf("ulimit -v %d; exec %s -test.run '^TestVerifReplay$' -test.timeout 0", r.memLimitKB, r.bin))
+	}
 	cmd.Dir = work
 	cmd.Env = append(os.Environ(), "VERIF_REPLAY="+f, "VERIF_WORK="+work)
 	var buf bytes.Buffer
